@@ -48,6 +48,20 @@ Theorem C04_single_choke_point :
   forallb (fun p => (streq (fst p) "controller" && streq (snd p) "Controller.evaluate_objective") || (streq (fst p) "solver" && streq (snd p) "solve_main")) eval_ls_callers = true.
 Proof. vm_compute. split; reflexivity. Qed.
 
+(* a soft restart moves the incumbent's slot: the incumbent must have been saved first, unconditionally (hypothesis `inc_saved` of the
+   model theorem at that site) *)
+Definition incumbent_saved_before_restart : bool :=
+  existsb (fun c => streq (c_func c) "Controller.soft_restart" &&
+                    slist_eq (c_args c) ["self.model.xopt(abs_coordinates=True)"; "self.model.ropt()"; "self.model.nsamples[self.model.kopt]";
+                                         "self.model.eval_num[self.model.kopt]"; "x_in_abs_coords=True"] &&
+                    forallb (fun g => negb (fst g)) (c_guards c) &&
+                    (* ... before any point of the model is moved *)
+                    forallb (fun w => Z.ltb (c_line c) (c_line w)) (filter (fun w => streq (c_func w) "Controller.soft_restart")
+                       (calls_of T_calls "change_point" ++ calls_of T_calls "add_new_point" ++ calls_of T_calls "evaluate_objective")))
+          (calls_of T_calls "save_point").
+Theorem C04_incumbent_saved_before_soft_restart : incumbent_saved_before_restart = true.
+Proof. vm_compute. reflexivity. Qed.
+
 (* ---- (3) hard-restart merge: the new run's result replaces the old one only if strictly better, or the old is NaN ---- *)
 Definition merge_guard_ok : bool :=
   forallb (fun a => has_guard (a_guards a) true "objmin2 < objmin or np.isnan(objmin)")
